@@ -96,8 +96,7 @@ def classify_missing_donor(evs):
               path loses the frame; haplotypes that CARRY the donor's frameshift record are not covered by this form)
       anchor  the run reports a garbled sequence (any header) and the peptide is an obliged product of the PLAIN transcript
               whose span reaches the anchor region of the AS record (the slip garbles the reference path as well)
-      flicker the peptide IS reported when the same input is run again under another PYTHONHASHSEED: the output is
-              not a function of the input (checked only for inputs whose donor segment carries small records)"""
+      flicker see classify_flicker (applied first)"""
     for ev in evs:
         c = ev.case
         if ev.exc or not ev.missing or not c.get('as_records'):
@@ -151,7 +150,7 @@ def classify_missing_donor(evs):
             for a in CG2.as_inputs(c, tx_id):
                 if not a[3]:
                     continue                      # donor segment without small records: judged strictly
-                ders = O.call('cv_as_must_derivs', [x, a, todo + reported])
+                ders = O.call('cv_as_must_derivs', [x, a, list(ev.missing) + reported])
                 by = {}
                 for q, h, st, ia, ib in ders:
                     hh = [(s0, e0, O.U(al)) for s0, e0, al in h]
@@ -187,6 +186,27 @@ def classify_missing_donor(evs):
                         # coarse form: p has an obliged derivation whose span holds no record BEHIND the event -- the garbling
                         # concerns the inserted piece itself; haplotypes with a downstream record stay strictly judged
                         coarse.setdefault(id(ev), set()).add(p)
+                # lost-twin extension of the downstream form: p has an obliged derivation WITHOUT any record of the donor segment
+                # that reaches behind the start of the inserted piece, and its twin WITHOUT p's records behind the event --
+                # another obliged peptide over an overlapping span whose records are a subset of p's -- is itself lost in this
+                # run (classified by one of the forms above): the path that carries the insertion but not the donor's records
+                # is broken whatever lies behind it.  Haplotypes that carry a donor record (seeded C01-7) are not covered.
+                lost = []
+                for q2, t2 in ev.missing.items():
+                    if t2 is None and q2 not in coarse.get(id(ev), ()):
+                        continue
+                    for up2, rest2, a2, b2, _s2, _h2 in by.get(q2, []):
+                        if not any(a[0] <= w[0] < behind for w in rest2):
+                            lost.append((q2, set(up2) | set(rest2), a2, b2))
+                for p in todo:
+                    if ev.missing[p] is not None or p in coarse.get(id(ev), ()):
+                        continue
+                    for up, rest, ia, ib, sp, sp_hi in by.get(p, []):
+                        if any(a[0] <= w[0] < behind for w in rest) or sp_hi <= a[0]:
+                            continue
+                        if any(q2 != p and r2 <= (set(up) | set(rest)) and ia < b2 and a2 < ib for q2, r2, a2, b2 in lost):
+                            ev.missing[p] = F_AS_DONOR
+                            break
         _apply_coarse(ev, coarse)
 
 def _apply_coarse(ev, coarse):
@@ -195,34 +215,65 @@ def _apply_coarse(ev, coarse):
             ev.missing[p] = F_AS_DONOR
             ev.raw['as_donor_coarse_missing'] = ev.raw.get('as_donor_coarse_missing', 0) + 1
 
-def classify_missing_flicker(evs, seeds=('0', '1', '2', '3', '4', '5')):
+FLICKER_SEEDS = ('0', '0', '0', '1', '2', '3')      # the identical case again: same PYTHONHASHSEED and varied
+
+def _donor_txs(c):
+    """transcripts of the case that carry an <INS>/<SUB> record with >= 1 small record inside its donor segment"""
+    out = []
+    for r in c.get('as_records', []):
+        if r['kind'] != 'DEL' and r['tx'] not in out and any(a[3] for a in CG2.as_inputs(dict(c, as_records=[r]), r['tx'])):
+            out.append(r['tx'])
+    return out
+
+def _tx_set(fasta, txs):
+    """sequences reported for the given transcripts (a header entry starts with the transcript id)"""
+    return frozenset(sq for h, sq in fasta if any(e.split('|')[0] in txs for e in h.split(' ')))
+
+def classify_flicker(evs, seeds=FLICKER_SEEDS):
+    """flicker form of C02-as-donor-record, applied BEFORE the other forms and only to cases that HAVE an AS record with
+    >= 1 small record inside its donor segment: when such a case shows an unexplained miss (C01) or an unexplained
+    unrealizable sequence (C02), the identical case is executed len(seeds) more times; if the sets of sequences reported
+    for the affected transcript differ between those executions (the original one included) -- i.e. the disagreement does
+    not reproduce in every run, or the runs disagree among themselves -- the engine's output is not a function of the
+    input (hash seed / object addresses) and every still-unexplained disagreement of that transcript is tagged.
+    A disagreement that reproduces identically in all executions goes on to the other forms or is a VIOLATION."""
     from harness.lib import impl as I
     import json as _json
     sel = []
     for ev in evs:
         c = ev.case
-        if ev.exc or not c.get('as_records') or not any(t is None for t in ev.missing.values()):
+        if ev.exc or not c.get('as_records'):
             continue
-        if not any(r['kind'] != 'DEL' and any(a[3] for a in CG2.as_inputs(dict(c, as_records=[r]), r['tx'])) for r in c['as_records']):
+        if not (any(t is None for t in ev.missing.values()) or any(t is None for t in ev.extra.values())):
             continue
-        sel.append(ev)
+        txs = _donor_txs(c)
+        if txs:
+            sel.append((ev, txs))
     if not sel:
         return
-    cases = [_json.loads(_json.dumps(dict({k: v for k, v in ev.case.items() if not k.startswith('_')}, runs=[ev.run]))) for ev in sel]
-    seen = [set() for _ in sel]
-    for hs in seeds:
-        res = I.run_cases('callvariant2', cases, jobs=16, tag='flick' + hs, hashseed=hs, timeout=3600)
+    cases = [_json.loads(_json.dumps(dict({k: v for k, v in ev.case.items() if not k.startswith('_')}, runs=[ev.run]))) for ev, _ in sel]
+    sets = [[_tx_set(ev.fasta, txs)] for ev, txs in sel]
+    for i, hs in enumerate(seeds):
+        res = I.run_cases('callvariant2', cases, jobs=16, tag='flick%d' % i, hashseed=hs, timeout=3600)
         for k, r in enumerate(res):
             r0 = r['runs'][0] if 'runs' in r else r
-            seen[k] |= set(sq for _h, sq in r0.get('fasta', []))
-    for ev, sn in zip(sel, seen):
+            sets[k].append(_tx_set(r0.get('fasta', []), sel[k][1]) if 'fasta' in r0 else frozenset(['<' + r0.get('__exc__', 'exc') + '>']))
+    for (ev, txs), ss in zip(sel, sets):
+        ev.raw['as_donor_reruns'] = len(ss) - 1
+        if len(set(ss)) <= 1:
+            continue                                  # reproduces identically: strict path
+        ev.raw['as_donor_flicker_sets'] = len(set(ss))
+        mine = set().union(*[ev.raw.get('_must_by_tx', {}).get(t, set()) for t in txs]) if ev.raw.get('_must_by_tx') else set(ev.missing)
         for p, t in list(ev.missing.items()):
-            if t is None and p in sn:
+            if t is None and p in mine:              # obliged by the affected transcript
                 ev.missing[p] = F_AS_DONOR
-                ev.raw['as_donor_flicker'] = ev.raw.get('as_donor_flicker', 0) + 1
+        for p, t in list(ev.extra.items()):
+            if t is None and any(e.split('|')[0] in txs for e in ev.got.get(p, [])):
+                ev.extra[p] = F_AS_DONOR
 
 def classify(evs):
     classify_missing(evs)
+    classify_flicker(evs)
     for ev in evs:
         if ev.exc or not ev.extra:
             continue
@@ -276,7 +327,10 @@ def classify(evs):
                 for a in CG2.as_inputs(c, tx_id):
                     if not a[3]:
                         continue
-                    for q0 in sorted(set(q_ for e_ in (a[0], a[1]) for q_ in range(max(0, e_ - 3), min(len(x[0]) - 2, e_ + 9)))):
+                    # window: 3 nt in front of to 8 nt behind either end of the replaced interval, extended over the records
+                    # that follow the event within 15 nt (the slip sits at the end of the variant bubble behind the anchor)
+                    hi_ = max([a[1] + 9] + [v[1] + 3 for v in x[6] if a[1] <= v[0] <= a[1] + 15])
+                    for q0 in sorted(set(q_ for lo_, h_ in ((a[0] - 3, a[0] + 9), (a[1] - 3, hi_)) for q_ in range(max(0, lo_), min(len(x[0]) - 2, h_)))):
                         for d in (1, 2):
                             if any(v[0] < q0 + d and q0 < v[1] for v in x[6]) or len(x[6]) > 9:
                                 continue
@@ -298,4 +352,3 @@ def classify(evs):
                 ev.extra[p] = F_AS_DONOR
                 ev.raw['as_donor_coarse'] = ev.raw.get('as_donor_coarse', 0) + 1
     classify_missing_donor(evs)
-    classify_missing_flicker(evs)
